@@ -213,6 +213,12 @@ func (ex *Exec) applyContract(st *State, in ssa.Instruction, ord int, name strin
 			ex.havocAssign(st, al)
 		}
 	}
+	if !spec.Pure {
+		// the callee may have allocated: later allocations here must not reuse its references
+		top := ex.ctx.Fresh("allocTop", SInt)
+		st.assume(tGe(top, st.allocTop))
+		st.allocTop = top
+	}
 	res := ex.freshResult(st, sig, "ret_"+sanitize(shortCallee(name)))
 	// assume ensures
 	eenv := bind(st, pre)
@@ -273,6 +279,14 @@ func (env *Env) evalAssign(e *SExpr) assignLoc {
 			}
 		}
 		sfail("elems() of %T", tv.V)
+	}
+	if e.Kind == "call" && e.Op == "key" && len(e.Args) == 1 && e.Args[0].Kind == "lit" {
+		// key("E|uint8|"): every location of one heap array (coarse frame for data reachable through maps)
+		parts := strings.SplitN(strings.Trim(e.Args[0].Lit, "\""), "|", 3)
+		if len(parts) != 3 {
+			sfail("key() expects \"Kind|Base|Path\"")
+		}
+		return assignLoc{loc: Loc{Kind: parts[0], Base: parts[1], Path: parts[2]}, whole: true, wholeKey: true, src: e.String()}
 	}
 	if e.Kind == "ident" {
 		if g, ok := env.cur.ghost[e.Op]; ok {
@@ -423,6 +437,20 @@ func (ex *Exec) havocAssign(st *State, al assignLoc) {
 			return
 		}
 		st.store(l, st.freshValue(l.Type, "hv"))
+		return
+	}
+	if al.wholeKey {
+		prefix := l.Kind + "|" + l.Base + "|" + l.Path
+		for k, h := range st.heaps {
+			if keyMatches(l, k) {
+				st.heaps[k] = ex.ctx.Fresh("H_"+k, h.Sort)
+				if ex.discover != nil {
+					ex.discover.keys[k] = h.Sort
+				}
+			}
+		}
+		// keys never touched so far must not resolve to their entry-state constants afterwards
+		st.havockedPrefixes = append(st.havockedPrefixes, prefix)
 		return
 	}
 	// whole backing array or whole map: every leaf key under the element type gets a fresh inner array at ref
